@@ -9,6 +9,7 @@
 -/
 import GoSecs.Lemmas.Responder
 import GoSecs.Lemmas.HsmsGen
+import GoSecs.Lemmas.ResponderGen
 import GoSecs.Gen.Consts
 import GoSecs.Gen.Funcs
 import GoSecs.Gen.Facts
@@ -130,6 +131,45 @@ theorem isValidSType_iff_table (n : Nat) : isValidSType n = true ↔ (stypeTable
 theorem dispatch_meets_table (c : Cfg) (s : RState) (f : Frame) (h : s.st ≠ .notConnected) :
     dispatch c s f = prescribed c s f :=
   dispatch_eq_prescribed c s f h
+
+/-- **`dispatch_gen`: the SOURCE's dispatcher is the model's.** `Gen.hsmsss_transport_dispatchFrame` (with
+    `handleControlReq`, `handleSelectReq`, `handleDeselectReq`, `handleLinktestReq`, `handleSeparateReq`, `sendReject`,
+    `sendRejectNotSelected`, `sendRejectTransactionNotOpen`, `selectStatus`) is re-translated from
+    hsmsss/transport_recv.go / transport_control.go on every run. For every link-up state, every header, every body:
+    run on the frame with the runtime's answers it returns normally, uses exactly those answers, stops the receive
+    loop exactly on a peer Separate while Selected, and its effect trace (frames queued, deliveries, RouteReply, the
+    CommitSelected / SelectLost commits, T7 armed / cancelled, linktest started / stopped, TCPDown), applied in program
+    order to the model state, gives `Responder.dispatch`'s next state, outputs and link effect. -/
+theorem dispatch_gen (c : Cfg) (s : RState) (h : Hsms.Header) (body : Bytes) (re : Bool)
+    (t : Gen.hsmsss_transport) (g : Gen.hsmsss_genWG) (hs : s.st ≠ .notConnected) :
+    ∃ tr, Gen.hsmsss_transport_dispatchFrame t g (wire h body) (answers c s h body re) =
+        some (decide ((dispatch c s (frameOf h body)).2.2 ≠ .peerSeparate), tr, []) ∧
+      tr.foldl (applyEff c) (s, [], .none) = dispatch c s (frameOf h body) :=
+  dispatch_gen_tie c s h body re t g hs
+
+/-- **The source meets the E37 table.** `dispatch_meets_table` as a statement about the regenerated dispatcher:
+    its effects, applied in order, are what the table prescribes — for every link-up state and every frame. -/
+theorem dispatch_source_meets_table (c : Cfg) (s : RState) (h : Hsms.Header) (body : Bytes) (re : Bool)
+    (t : Gen.hsmsss_transport) (g : Gen.hsmsss_genWG) (hs : s.st ≠ .notConnected) :
+    ∃ cont tr, Gen.hsmsss_transport_dispatchFrame t g (wire h body) (answers c s h body re) = some (cont, tr, []) ∧
+      tr.foldl (applyEff c) (s, [], .none) = prescribed c s (frameOf h body) := by
+  obtain ⟨tr, h1, h2⟩ := dispatch_gen c s h body re t g hs
+  exact ⟨_, tr, h1, by rw [h2, dispatch_meets_table c s _ hs]⟩
+
+/-- The order the H2 invariant is about, read off the regenerated Select responder: the commit comes BEFORE the
+    Select.rsp is queued, and T7 is cancelled / the linktest started only for a genuine commit. -/
+theorem select_responder_trace (t : Gen.hsmsss_transport) (g : Gen.hsmsss_genWG) (req : Hsms.ControlMsg)
+    (hty : req.type = Hsms.stSelectReq) :
+    (Gen.hsmsss_transport_handleSelectReq t g req.toGen [.bool true]).1 =
+      [.call "hsms.TransportRuntime.CommitSelected" [], .call "hsmsss.transport.cancelT7" [],
+       .call "hsmsss.transport.startLinktest" [],
+       sendEff ⟨Hsms.ctlHeader req.hdr.sid0 req.hdr.sid1 0 0 Hsms.stSelectRsp req.hdr.sys, false⟩] ∧
+    (Gen.hsmsss_transport_handleSelectReq t g req.toGen [.bool false]).1 =
+      [.call "hsms.TransportRuntime.CommitSelected" [],
+       sendEff ⟨Hsms.ctlHeader req.hdr.sid0 req.hdr.sid1 0 1 Hsms.stSelectRsp req.hdr.sys, false⟩] := by
+  constructor
+  · rw [handleSelectReq_gen t g req true [] hty]; rfl
+  · rw [handleSelectReq_gen t g req false [] hty]; rfl
 
 /-- **All finite sequences.** The responses to any frame sequence, from any state, are the table's, frame by
     frame, in order (by induction over the sequence). -/
